@@ -1212,7 +1212,21 @@ static void run_coll(Rng& g, long nops, std::size_t max_node, std::size_t block_
         else if (k < 84)
         {
             std::size_t size = pick_size(), cap = 16 + g.below(200);
+            std::size_t pool0 = c->pool_capacity_left(size);
             std::string res = guarded([&] { c->reserve(size, cap); });
+            // C04/C18: reserve() "inserts more memory on the free list for nodes of given size": what it takes from the block
+            // must show up as capacity of that bucket (at least the whole nodes that fit into `cap` bytes)
+            if (res.empty() && size <= mx)
+            {
+                std::size_t bns = c->pool_capacity_left(size) >= pool0 ? c->pool_capacity_left(size) - pool0 : 0;
+                std::size_t node = PoolType::type::min_element_size > size ? PoolType::type::min_element_size : size; // lower bound of the bucket's node size
+                // (pool_capacity_left counts nodes; how many fit depends on the list type's overhead: at least one must appear)
+                (void)node;
+                if (bns == 0)
+                    O->fail(fmt("C04 memory_pool_collection::reserve(%zu, %zu): the bucket's capacity grew by %zu nodes only - the reserved memory "
+                                "was taken from the block but not put on the free list",
+                                size, cap, bns));
+            }
             emit(fmt("coll reserve %zu %zu", size, cap), res.empty() ? "done" : res, coll_state(*c));
         }
         else if (k < 90)
